@@ -64,6 +64,7 @@ func (f failingDo) Do(req *http.Request) (*http.Response, error) {
 }
 
 func cflowOp(c *Ctx, op string) {
+	c.Begin(op)
 	a := kvArgs(strings.Fields(op))
 	proto := a["proto"]
 	ans := safely(func() string {
@@ -174,6 +175,7 @@ func (b *watchClient) Do(req *http.Request) (*http.Response, error) {
 //
 //	cwatch proto=P point=prefix:N|payload:N err=E ctx=canceled|deadline -> first=C second=C | norelease
 func cwatchOp(c *Ctx, op string) {
+	c.Begin(op)
 	a := kvArgs(strings.Fields(op))
 	proto := a["proto"]
 	ans := safely(func() string {
@@ -1064,6 +1066,7 @@ func genPayloadNoReject(r *Rng, maxLen int) []byte {
 
 // rseqOp: K consecutive Receive calls on one bidi call over a structured body.
 func rseqOp(c *Ctx, op string) {
+	c.Begin(op)
 	a := kvArgs(strings.Fields(op))
 	proto := a["proto"]
 	resp := &sresp{status: 200, header: parseHdr(a["hdr"]), body: parseBody(a["body"]), trailer: parseHdr(a["trl"])}
